@@ -76,6 +76,65 @@ def spec_export_names(wit):
     return required, recognised
 
 
+def spec_import_names(wit):
+    """Independent spec of the (module, name) pairs of the core imports for the probe: functions, constructors, methods, statics and
+    resource.drop of every imported interface under the interface's name; resource.drop / resource.new / resource.rep of every EXPORTED
+    resource under `[export]<interface>` - all with WIT (kebab-case) names."""
+    import re
+    pkg = re.search(r'package\s+([\w:-]+);', wit).group(1)
+    ifaces = {}
+    for m in re.finditer(r'interface\s+([\w-]+)\s*\{', wit):
+        i, depth, j = m.end(), 1, m.end()
+        while depth:
+            depth += {'{': 1, '}': -1}.get(wit[j], 0)
+            j += 1
+        ifaces[m.group(1)] = wit[i:j - 1]
+    world = re.search(r'world\s+[\w-]+\s*\{(.*?)\}', wit, re.S).group(1)
+    want = set()
+    for imp in re.findall(r'import\s+([\w-]+);', world):
+        body, q = ifaces[imp], '%s/%s' % (pkg, imp)
+        rest = body
+        for m in re.finditer(r'resource\s+([\w-]+)\s*\{(.*?)\}', body, re.S):
+            r, rb = m.group(1), m.group(2)
+            rest = rest.replace(m.group(0), '')
+            want.add((q, '[resource-drop]' + r))
+            if re.search(r'constructor\s*\(', rb):
+                want.add((q, '[constructor]' + r))
+            for fm in re.finditer(r'([\w-]+)\s*:\s*(static\s+)?func', rb):
+                want.add((q, '[%s]%s.%s' % ('static' if fm.group(2) else 'method', r, fm.group(1))))
+        for fm in re.finditer(r'([\w-]+)\s*:\s*func', rest):
+            want.add((q, fm.group(1)))
+    for exp in re.findall(r'export\s+([\w-]+);', world):
+        body, q = ifaces[exp], '[export]%s/%s' % (pkg, exp)
+        for m in re.finditer(r'resource\s+([\w-]+)\s*\{', body):
+            for k in ('drop', 'new', 'rep'):
+                want.add((q, '[resource-%s]%s' % (k, m.group(1))))
+    return want
+
+
+def check_import_names(rep, d, sub):
+    from vlib.common import Obligation, VERIF
+    import os, re
+    wit = open(os.path.join(VERIF, 'kani/cgen_res/probe.wit')).read()
+    text = open(os.path.join(d, 'resprobe.c')).read()
+    got = set(re.findall(r'__import_module__\("([^"]*)"\),\s*__import_name__\("([^"]*)"\)', text))
+    want = spec_import_names(wit)
+    ob = Obligation('imports.names_canonical' + sub, GR + 'every core import the generated C declares is named as the component model names it (functions, constructors, methods, '
+                    'resource.drop of imported resources under the interface; resource.drop / new / rep of exported resources under `[export]<interface>`, WIT names), '
+                    'and every resource built-in of the probe is imported', 'property', 'text-spec', bounded=RES)
+    stray, lacking = sorted(got - want), sorted(want - got)
+    if not got:
+        ob.status, ob.detail = 'undecided', 'no import attribute found in the generated C (generator output changed shape)'
+    elif stray or lacking:
+        ob.status = 'failed'
+        ob.detail = 'imports with a (module, name) outside the scheme: %s; expected imports that are missing: %s' % (stray, lacking)
+        ob.replay = {'input': 'kani/cgen_res/probe.wit', 'function': 'crates/c/src/lib.rs (import module / name attributes)', 'how': 'grep __import_module__ in the generated resprobe.c',
+                     'expected': sorted(want), 'observed': sorted(got)}
+    else:
+        ob.status = 'discharged'
+    rep.add(ob)
+
+
 def check_export_names(rep, d, sub):
     from vlib.common import Obligation, VERIF
     import os
@@ -123,6 +182,7 @@ def run_resources(rep):
         funcs = [(f, oid + sub, what + (' [--autodrop-borrows yes]' if sub else ' [default options]'), b) for f, oid, what, b in RES_FUNCS]
         C10.check(rep, d, funcs, 'C11:', memory=True, defines=defs, canary=False, G=GR)
         check_export_names(rep, d, sub)
+        check_import_names(rep, d, sub)
         if sub:
             continue
         # generated free helpers (independent of autodrop): the export-side helpers must exist before the harness can call them
